@@ -53,8 +53,10 @@ func checkC14(c *Ctx) {
 	res := c.Res
 	res.Rule = "random config struct types as C11 plus embedded structs, alias tags (dialsalias) on ~40% of the leaves at any depth; per aliased leaf one of neither / primary / alias / both (both on at most one leaf in ~30% of the cases), other leaves set with 45%; " +
 		"each case through env.Source (real environment; also vs the Lean model), an alias-wrapped JSON decoder as ez builds it, flag.Set and pflag.Set; oracle per leaf (primary or alias value, unset, error naming the field). " +
+		"plus a stream of configs holding a slice / array of structs whose ELEMENT fields (by value: string, int, bool, struct, named scalar; pointer; slice) carry aliases, through the alias-wrapped JSON decoder, four patterns per element and field (set = non-zero there). " +
 		"non-trivial: an aliased leaf below the top level or >= 2 aliased leaves; distinct = by type + pattern vector + source"
 	n := c.scale(1500, 20000)
+	c14Elements(c, n/3)
 	for i := 0; i < n; i++ {
 		g := &envTypeGen{r: r, used: map[string]bool{}, alias: true, embed: r.Chance(40)}
 		T := g.genStruct(1+r.Intn(3), nil, nil)
@@ -418,4 +420,156 @@ func aliasIndex(l envLeaf) int {
 	i := strings.LastIndex(l.aliasOf, "_N")
 	k, _ := strconv.Atoi(l.aliasOf[i+2:])
 	return k
+}
+
+// ---------- aliases on the fields of slice / array elements (not pointerified: set = non-zero) ----------
+
+// c14Elements: a config with a slice (or array) of structs whose element fields carry alias tags, read
+// through the alias-wrapped JSON decoder; per element and aliased field one of the four patterns.
+func c14Elements(c *Ctx, n int) {
+	r := c.RNG
+	res := c.Res
+	type fspec struct {
+		name, key, alias string
+		typ              reflect.Type
+	}
+	pool := []fspec{
+		{"Host", "host", "hostname", reflect.TypeOf("")}, {"Port", "port", "tcp_port", reflect.TypeOf(0)}, {"On", "on", "enabled", reflect.TypeOf(false)},
+		{"Limits", "limits", "quota", reflect.TypeOf(struct{ Burst int }{})}, {"Weight", "weight", "prio", reflect.TypeOf((*int)(nil))},
+		{"Tags", "tags", "labels", reflect.TypeOf([]string(nil))}, {"Level", "level", "lvl", reflect.TypeOf(Level(0))},
+	}
+	for i := 0; i < n; i++ {
+		perm := r.Fork()
+		var fs []fspec
+		var sfs []reflect.StructField
+		for _, f := range pool {
+			if !perm.Chance(60) {
+				continue
+			}
+			tag := fmt.Sprintf(`dials:%q`, f.key)
+			if perm.Chance(65) {
+				tag += fmt.Sprintf(` dialsalias:%q`, f.alias)
+			} else {
+				f.alias = ""
+			}
+			fs = append(fs, f)
+			sfs = append(sfs, reflect.StructField{Name: f.name, Type: f.typ, Tag: reflect.StructTag(tag)})
+		}
+		if len(fs) == 0 {
+			continue
+		}
+		elem := reflect.StructOf(sfs)
+		coll := reflect.SliceOf(elem)
+		nel := 1 + r.Intn(3)
+		if r.Chance(12) {
+			coll = reflect.ArrayOf(nel, elem)
+		}
+		T := reflect.StructOf([]reflect.StructField{
+			{Name: "Title", Type: reflect.TypeOf(""), Tag: `dials:"title"`},
+			{Name: "Items", Type: coll, Tag: `dials:"items"`},
+		})
+		PT := ptrify.Pointerify(T, reflect.New(T).Elem())
+		nonzero := func(t reflect.Type) reflect.Value {
+			v := reflect.New(t).Elem()
+			for tries := 0; tries < 30; tries++ {
+				fillInner(r, v, 2)
+				if !v.IsZero() && !(v.Kind() == reflect.Slice && v.Len() == 0) {
+					break
+				}
+			}
+			return v
+		}
+		var items []any
+		type want struct {
+			el, f int
+			v     reflect.Value // invalid: unset (zero)
+		}
+		var wants []want
+		bothField := ""
+		pats := ""
+		usesAlias := false
+		for e := 0; e < nel; e++ {
+			obj := map[string]any{}
+			for k, f := range fs {
+				p := r.Intn(2) // neither / primary
+				if f.alias != "" {
+					p = r.Intn(3)
+					if bothField == "" && r.Chance(8) {
+						p = 3
+						bothField = f.name
+					}
+				}
+				pats += strconv.Itoa(p)
+				usesAlias = usesAlias || p >= 2
+				v := nonzero(f.typ)
+				switch p {
+				case 0:
+					wants = append(wants, want{e, k, reflect.Value{}})
+					continue
+				case 1:
+					obj[f.key] = v.Interface()
+				case 2:
+					obj[f.alias] = v.Interface()
+				case 3:
+					obj[f.key] = v.Interface()
+					obj[f.alias] = nonzero(f.typ).Interface()
+				}
+				wants = append(wants, want{e, k, v})
+			}
+			items = append(items, obj)
+		}
+		text, merr := encjson.Marshal(map[string]any{"title": "t", "items": items})
+		if merr != nil {
+			res.OutOfDomain++
+			continue
+		}
+		cs := map[string]any{"type": T.String(), "source": "json (slice elements)", "json": string(text), "patterns": pats}
+		src := &static.StringSource{Data: string(text), Decoder: sourcewrap.NewTransformingDecoder(&json.Decoder{}, transform.NewAliasMangler("dials"))}
+		var out reflect.Value
+		var err error
+		pn := catch(func() { out, err = src.Value(context.Background(), dials.NewType(PT)) })
+		res.Count("source/json-elements/" + map[bool]string{true: "err", false: "ok"}[err != nil || pn != ""])
+		// finding D31b: Pointerify turns an array field into a pointer to the array, and the Transformer recurses
+		// into *struct, []struct and [n]struct only: no mangler (alias, tag copy) reaches the element type of a
+		// config field of array type, so alias names inside array elements are ignored
+		add := func(f Finding) {
+			if coll.Kind() == reflect.Array && usesAlias && f.Kind == "violation" && !strings.Contains(f.What, "panicked") && isKnown("C14", "D31b-alias-in-array-elements") {
+				f.Kind, f.KnownID = "known", "D31b-alias-in-array-elements"
+			}
+			res.Add(f)
+		}
+		switch {
+		case pn != "":
+			add(Finding{Kind: "violation", What: "json (slice elements): source panicked: " + pn, Case: cs})
+		case bothField != "":
+			if err == nil {
+				add(Finding{Kind: "violation", What: fmt.Sprintf("json (slice elements): primary and alias of element field %s both supplied, but no error", bothField), Case: cs})
+			} else if !strings.Contains(err.Error(), bothField) {
+				add(Finding{Kind: "violation", What: fmt.Sprintf("json (slice elements): the error for a doubly supplied element field does not name it (%s)", bothField), Case: cs, Observed: err.Error()})
+			}
+		case err != nil:
+			add(Finding{Kind: "violation", What: "json (slice elements): source failed although no field is supplied under both names", Case: cs, Observed: err.Error()})
+		default:
+			itemsV := out.FieldByName("Items")
+			for itemsV.Kind() == reflect.Ptr && !itemsV.IsNil() {
+				itemsV = itemsV.Elem()
+			}
+			if itemsV.Kind() == reflect.Ptr || itemsV.Len() != nel {
+				add(Finding{Kind: "violation", What: "json (slice elements): the collection did not arrive", Case: cs, Observed: fmt.Sprint(itemsV)})
+				break
+			}
+			for _, w := range wants {
+				got := itemsV.Index(w.el).Field(w.f)
+				exp := reflect.Zero(got.Type())
+				if w.v.IsValid() {
+					exp = w.v
+				}
+				if !reflect.DeepEqual(got.Interface(), exp.Interface()) {
+					add(Finding{Kind: "violation", What: fmt.Sprintf("json (slice elements): element %d field %s: got %v, want %v", w.el, fs[w.f].name, got.Interface(), exp.Interface()), Case: cs})
+					break
+				}
+			}
+		}
+		res.Case("E|"+T.String()+"|"+pats, nel >= 2 || len(fs) >= 3, cs)
+	}
 }
